@@ -42,7 +42,7 @@ def run(tier, seed, replay=None):
     return EL.standard_run(
         PID, tier, seed, replay, MC, corpus, nontrivial,
         role3={"quick": [dict(family="droop", max_ballots=2, max_w=1)], "thorough": [dict(family="stv", max_ballots=2, max_w=2)]},
-        repo_test_rules=("STV", "IRV", "SequentialRCV"),
+        repo_test_rules=("STV", "IRV", "SequentialRCV"), wide={},
         rule_text="role 1: TLC exhaustive over every profile of <=K distinct untied rankings of 3 candidates x every "
                   "m/quota/mode/transfer/tiebreak configuration x every random outcome; role 2: real STV/IRV/SequentialRCV runs "
                   "(all random branches enumerated by the scripted source) validated round by round by ElectionTrace. "
